@@ -70,6 +70,114 @@ pub fn fork_classify<F: FnOnce() -> i32>(f: F) -> String {
     }
 }
 
+/// state letter of a process from /proc (R, S, T = stopped, Z = zombie, - = gone)
+fn proc_state(pid: libc::pid_t) -> char {
+    match std::fs::read_to_string(format!("/proc/{}/stat", pid)) {
+        Ok(t) => t.rsplit(')').next().and_then(|r| r.trim_start().chars().next()).unwrap_or('?'),
+        Err(_) => '-',
+    }
+}
+
+/// like `fork_classify`, but the probe shares its (fresh) process group with a bystander process; the
+/// outcome also says what happened to the bystander - the default action of a signal raised in one
+/// process concerns that process only
+pub fn fork_classify_group<F: FnOnce() -> i32>(f: F) -> String {
+    unsafe {
+        let mut fds = [0 as libc::c_int; 2];
+        if libc::pipe(fds.as_mut_ptr()) != 0 {
+            return "pipe-failed".into();
+        }
+        let pid = libc::fork();
+        if pid < 0 {
+            return "fork-failed".into();
+        }
+        if pid == 0 {
+            child_prelude();
+            libc::close(fds[0]);
+            let b = libc::fork();
+            if b == 0 {
+                libc::close(fds[1]);
+                libc::alarm(20);
+                loop {
+                    libc::pause();
+                }
+            }
+            let bytes = (b as i32).to_ne_bytes();
+            libc::write(fds[1], bytes.as_ptr() as *const libc::c_void, 4);
+            libc::close(fds[1]);
+            let code = if b < 0 { 6 } else { f() };
+            libc::_exit(code);
+        }
+        libc::close(fds[1]);
+        let mut bytes = [0u8; 4];
+        let got = libc::read(fds[0], bytes.as_mut_ptr() as *mut libc::c_void, 4);
+        libc::close(fds[0]);
+        let b = if got == 4 { i32::from_ne_bytes(bytes) } else { -1 };
+        let mut status = 0;
+        let mut waited = 0u32;
+        let base: String = loop {
+            let r = libc::waitpid(pid, &mut status, libc::WUNTRACED | libc::WNOHANG);
+            if r == pid {
+                break if libc::WIFSTOPPED(status) {
+                    "stopped".into()
+                } else if libc::WIFSIGNALED(status) {
+                    format!("killedBy:{}", libc::WTERMSIG(status))
+                } else if libc::WIFEXITED(status) {
+                    match libc::WEXITSTATUS(status) {
+                        0 => "continues".into(),
+                        3 => "err".into(),
+                        c => format!("exit:{}", c),
+                    }
+                } else {
+                    format!("status:{}", status)
+                };
+            }
+            if r < 0 {
+                break "wait-failed".into();
+            }
+            std::thread::sleep(std::time::Duration::from_millis(2));
+            waited += 2;
+            if waited > 10_000 {
+                break "hang".into();
+            }
+        };
+        // the bystander is observed while the probe is still there (stopped) or has just gone
+        std::thread::sleep(std::time::Duration::from_millis(15));
+        let st = if b > 0 { proc_state(b) } else { '?' };
+        if b > 0 {
+            libc::kill(b, libc::SIGKILL);
+            libc::kill(b, libc::SIGCONT);
+        }
+        if base == "stopped" || base == "hang" {
+            libc::kill(pid, libc::SIGKILL);
+            libc::kill(pid, libc::SIGCONT);
+            libc::waitpid(pid, &mut status, 0);
+        }
+        match st {
+            'S' | 'R' | 'D' => base,
+            'T' | 't' => format!("{}+bystander-stopped", base),
+            'Z' | '-' | 'X' => format!("{}+bystander-killed", base),
+            c => format!("{}+bystander-{}", base, c),
+        }
+    }
+}
+
+fn native_group(n: libc::c_int) -> String {
+    fork_classify_group(|| unsafe {
+        if libc::raise(n) != 0 {
+            return 3;
+        }
+        0
+    })
+}
+
+fn emulate_group(n: libc::c_int) -> String {
+    fork_classify_group(|| match signal_hook::low_level::emulate_default_handler(n) {
+        Ok(()) => 0,
+        Err(_) => 3,
+    })
+}
+
 fn native(n: libc::c_int) -> String {
     fork_classify(|| unsafe {
         if libc::raise(n) != 0 {
@@ -160,10 +268,15 @@ pub fn main() -> i32 {
             ["emu", n, ctx] => match n.parse::<i64>() {
                 Ok(n) if n >= i32::MIN as i64 && n <= i32::MAX as i64 => {
                     let n = n as libc::c_int;
-                    let k = if *ctx == "pending" { native_pending(n) } else { native(n) };
+                    let k = match *ctx {
+                        "pending" => native_pending(n),
+                        "group" => native_group(n),
+                        _ => native(n),
+                    };
                     let e = match *ctx {
                         "normal" => emulate_normal(n),
                         "pending" => emulate_pending(n),
+                        "group" => emulate_group(n),
                         "handler" => emulate_in_handler(n),
                         "cond" => emulate_cond_default(n),
                         _ => "bad-ctx".into(),
